@@ -4,7 +4,7 @@
    an operation accepted today does not make a later block fail when an unbonding period matures. *)
 From stdpp Require Import gmap.
 Require Import Model.Base Model.Ante Model.Validate Model.Current Model.State Model.Staking Model.Slashing Model.Poa Model.App.
-Require Import proofs.Inv proofs.InvIdx proofs.L1Effects proofs.InvPres proofs.InvMsgs proofs.InvHistory.
+Require Import proofs.EvBasic proofs.Inv proofs.InvIdx proofs.L1Effects proofs.InvPres proofs.InvMsgs proofs.InvHistory.
 Open Scope Z_scope.
 
 Record QI (s : staking) : Prop := {
@@ -183,10 +183,24 @@ Proof.
   apply IH; [eapply handle_signature_CI; eauto|eapply handle_signature_QI; eauto].
 Qed.
 
-Lemma begin_block_QI c votes absent c' : CI c -> QI (stk c) -> begin_block c votes absent = inl c' -> QI (stk c').
+Lemma handle_evidence_QI c e c' : CI c -> QI (stk c) -> handle_evidence c e = Some c' -> QI (stk c').
+Proof.
+  intros [HS HP] HQ H. apply handle_evidence_cases in H as [->|(id & v & i & c1 & s2 & _ & _ & _ & _ & _ & _ & Es & Hj & ->)]; [exact HQ|].
+  cbn. pose proof (slash_QI _ _ _ _ _ HS HQ Es) as Q1. destruct Hj as [[_ ->]|[_ Ej]]; [exact Q1|eapply jail_QI; eauto].
+Qed.
+
+Lemma handle_evidences_QI evs c c' : CI c -> QI (stk c) -> handle_evidences evs c = Some c' -> QI (stk c').
+Proof.
+  intros HC HQ H. apply (handle_evidences_preserves (fun c => CI c /\ QI (stk c)) evs) in H; [exact (proj2 H)| |split; assumption].
+  intros c0 e c1 [A B] E. split; [eapply handle_evidence_CI; eauto|eapply handle_evidence_QI; eauto].
+Qed.
+
+Lemma begin_block_QI c votes absent evs c' : CI c -> QI (stk c) -> begin_block c votes absent evs = inl c' -> QI (stk c').
 Proof.
   intros HCI HQ. unfold begin_block. destruct (_ && _); [discriminate|]. destruct (handle_votes votes absent c) as [c1|] eqn:E; [|discriminate].
-  intros [= <-]. pose proof (handle_votes_QI _ _ _ _ HCI HQ E) as H1. unfold poa_begin_block. destruct (1 <? height c1); exact H1.
+  destruct (handle_evidences evs c1) as [c2|] eqn:E2; [|discriminate].
+  intros [= <-]. pose proof (handle_votes_QI _ _ _ _ HCI HQ E) as H1. pose proof (handle_votes_CI _ _ _ _ HCI E) as C1.
+  pose proof (handle_evidences_QI _ _ _ C1 H1 E2) as H2. unfold poa_begin_block. destruct (1 <? height c2); exact H2.
 Qed.
 
 (* ---- SetPOAPower on a validator that is not queued ---- *)
@@ -511,8 +525,8 @@ Proof.
   set (c0 := with_clock (w_chain w) (height (w_chain w) + 1) (now (w_chain w) + b_dt b)).
   assert (H0 : CI c0) by (apply CI_clock; exact HCI).
   assert (Q0 : QI (stk c0)) by exact HQ.
-  destruct (begin_block c0 _ (b_absent b)) as [c1|e] eqn:Eb; [|exact Q0].
-  pose proof (begin_block_CI _ _ _ _ H0 Eb) as H1. pose proof (begin_block_QI _ _ _ _ H0 Q0 Eb) as Q1.
+  destruct (begin_block c0 _ (b_absent b) (b_evidence b)) as [c1|e] eqn:Eb; [|exact Q0].
+  pose proof (begin_block_CI _ _ _ _ _ H0 Eb) as H1. pose proof (begin_block_QI _ _ _ _ _ H0 Q0 Eb) as Q1.
   pose proof (deliver_txs_CI (b_txs b) c1 H1) as H2. pose proof (deliver_txs_QI (b_txs b) c1 H1 Q1) as Q2.
   destruct (deliver_txs c1 (b_txs b)) as [c2 outs]. cbn in H2, Q2.
   destruct (staking_end_block c2) as [c3 upd|e] eqn:Ee; [|exact Q2].
@@ -536,8 +550,8 @@ Proof.
   set (c0 := with_clock (w_chain w) (height (w_chain w) + 1) (now (w_chain w) + b_dt b)).
   assert (H0 : CI c0) by (apply CI_clock; exact HCI).
   assert (Q0 : QI (stk c0)) by exact HQ.
-  destruct (begin_block c0 _ (b_absent b)) as [c1|e] eqn:Eb; [|cbn; discriminate].
-  pose proof (begin_block_CI _ _ _ _ H0 Eb) as H1. pose proof (begin_block_QI _ _ _ _ H0 Q0 Eb) as Q1.
+  destruct (begin_block c0 _ (b_absent b) (b_evidence b)) as [c1|e] eqn:Eb; [|cbn; discriminate].
+  pose proof (begin_block_CI _ _ _ _ _ H0 Eb) as H1. pose proof (begin_block_QI _ _ _ _ _ H0 Q0 Eb) as Q1.
   pose proof (deliver_txs_QI (b_txs b) c1 H1 Q1) as Q2.
   destruct (deliver_txs c1 (b_txs b)) as [c2 outs]. cbn in Q2.
   pose proof (staking_end_block_no_queue_halt c2 Q2) as Hn.
